@@ -4,7 +4,7 @@ model phase : placement walk state machine = closed form for all versions, data-
               (version, level, mode) cells parse back through the segment automaton (MC_QRFormat)
 trace valid.: every image is read by the reference reader of QR.tla (TraceQR): function patterns, format/version words, unmasking,
               zig-zag, de-interleaving, Reed-Solomon syndromes of every block, segment/terminator/pad automaton, bytes = content"""
-import vlib, onedim, gen
+import vlib, onedim, gen, encconf
 
 ALNUM = "0123456789ABCDEFGHIJKLMNOPQRSTUVWXYZ $%*+-./:"
 ECC = {0: [7, 10, 15, 20, 26, 18, 20, 24, 30, 18, 20, 24, 26, 30, 22, 24, 28, 30, 28, 28, 28, 28, 30, 30, 26, 28, 30, 30, 30, 30, 30, 30, 30, 30, 30, 30, 30, 30, 30, 30],
@@ -135,10 +135,15 @@ def qr_cov(chk, evs, extras):
 def run(tier):
     chk = vlib.Check("C01", tier)
     quick = tier == "quick"
-    chk.add_model([dict(module="MC_QRWalk.tla", cfg="MC_QRWalk_quick.cfg" if quick else "MC_QRWalk.cfg", workers=6, timeout=3000, heap="6g"),
+    chk.add_model([dict(module="MC_QREnc.tla", cfg="MC_QREnc_quick.cfg" if quick else "MC_QREnc_thorough.cfg", workers=6, timeout=3000, heap="6g"),
+                   dict(module="MC_QRWalk.tla", cfg="MC_QRWalk_quick.cfg" if quick else "MC_QRWalk.cfg", workers=6, timeout=3000, heap="6g"),
                    dict(module="MC_QRFormat.tla", cfg="MC_QRFormat.cfg", workers=6, timeout=3000, heap="6g")])
     drive = vlib.build_harness(chk.work)
     jobs = qr_jobs(chk.rng, quick)
+    # encoder-model conformance (tools/encconf.py): the real mode encoders / version choice / padding against QREnc over MC_QREnc's state space
+    wrong, drift = encconf.conformance(chk, "qr", quick)
+    for c in wrong + drift:
+        jobs.append(gen.enc("qr", list(c["content"]), tuple(c["p"])))
     evs, extras = onedim.judge(chk, drive, jobs, "TraceQR", "TraceQR.cfg", 14 if quick else 16, wanted, heap="5g", timeout=6000)
     ok = [e for e in evs if e["res"]["kind"] == "ok"]
     chk.cov["symbols_decoded"] = len(ok)
